@@ -4,21 +4,74 @@ HDR = TOK + ["src/HttpHeader.cc", "src/HttpHeaderTools.cc", "src/http/Registered
 _U = HDR + ["src/http.cc", "src/clients/Client.cc", "src/refresh.cc", "src/MemObject.cc", "src/HttpRequest.cc", "src/HttpReply.cc", "src/http/Message.cc",
             "src/HttpBody.cc", "src/HttpHdrCc.cc", "src/http/RequestMethod.cc", "src/http/MethodType.cc", "src/http/StatusLine.cc", "src/http/StatusCode.cc",
             "src/anyp/UriScheme.cc", "src/anyp/ProtocolType.cc"]
-_e = lambda n, b, r, **kw: dict(name=n, bounds=b, reach=list(r), **dict(dict(jobs=2, max_samples=4), **kw))
+_e = lambda n, b, r, **kw: dict(name=n, bounds=b, reach=list(r), **dict(dict(jobs=2, max_samples=3, sample_every=17), **kw))
+_h = ("; b = fully symbolic byte of a field value (any value except NUL, CR, LF and -- KNOWN-FINDING candidate, see assumptions -- VT, FF); status symbolic in "
+      "{200,203,300,301,308,410,404}, negative_ttl symbolic 0..3600; fresh private entry received now without explicit expiry; nothing cached before")
+_K1 = ("request Cache-Control absent or any mask over the 14 recognised directives with any values; reply Cache-Control likewise, no-cache/private with or "
+       "without field list; request flags auth, authSent; reply status 0..999; reply Date, Expires, Content-Length any 32-bit value; entry flags any 16-bit "
+       "value; entry timestamp 0..10^9, expires any 32-bit value, no Last-Modified; ignoreCacheControl, surrogateNoStore, sawDateGoBack; negative_ttl 0..3600; "
+       "minimum_expiry_time 60, max_stale 1 week, no refresh_pattern")
+_D = ("reuseNot", "cachePositively", "cacheNegatively", "doNotCacheButShare", "reply-no-store", "reply-private", "request-no-store", "auth-not-shared",
+      "auth-shared-stored", "auth-no-cache-exception-stored")
+_Q = [
+    _e("c11_decision", "HttpStateData::reusableReply(): " + _K1, _D, jobs=4, max_samples=8, sample_every=97),
+    _e("c11_request_veto", "HttpRequest::maybeCacheable(): every registered method, scheme http|https, request Cache-Control absent or any mask, "
+       "flags hostVerified/intercepted/interceptTproxy/ignoreCc symbolic", ("request-no-store", "cachable", "vetoed"), jobs=1),
+]
+def _fam(t):
+    th = t == "thorough"
+    f = lambda q, T: T if th else q
+    return [
+        _e("c11_hdr_case", "reply 'Cache-Control: " + f("b 'o-' b 'tore'", "b 'o-' b 'tor' b") + "'" + _h, ("reply-no-store", "stored")),
+        _e("c11_hdr_case_private", "reply 'Cache-Control: max-age=60, " + f("b 'rivat' b", "b 'r' b 'vat' b") + "'" + _h, ("reply-private", "stored")),
+        _e("c11_hdr_sep", "reply 'Cache-Control: public' " + f("b b", "b b b") + " 'no-store'" + _h, ("reply-no-store", "stored")),
+        _e("c11_hdr_sep_private", "reply 'Cache-Control: private' b b 's-maxage=9'" + f("", " b") + _h, ("reply-private", "stored")),
+        _e("c11_hdr_args", "reply 'Cache-Control: public, private' " + f("b b", "b b b") + _h, ("reply-private", "stored")),
+        _e("c11_hdr_dup", "reply with two field lines 'Cache-Control: public' and 'Cache-Control: max-age=5' " + f("b ' ' b", "b b b") + " 'o-store'" + _h, ("reply-no-store", "stored")),
+        _e("c11_hdr_req", "request 'Cache-Control: ' b 'o-store' " + f("b", "b b") + " 'max-age=0', reply 'Cache-Control: public, max-age=60'" + _h, ("request-no-store", "stored")),
+        _e("c11_hdr_req_dup", "request with two field lines 'Cache-Control: no-cache' and 'Cache-Control: " + f("no-' b 'tor' b", "' b 'o-' b 'tor' b") + ", reply 'Cache-Control: public'" + _h, ("request-no-store", "stored")),
+        _e("c11_hdr_auth", "request with Authorization; reply 'Cache-Control: " + f("b 'ubli' b", "b 'ubl' b b") + "'" + _h, ("auth-not-shared", "auth-stored")),
+        _e("c11_hdr_auth_list", "request with Authorization; reply 'Cache-Control: max-age=60' " + f("b b 'must-revalidate'", "b b b 'ust-revalidate'") + _h, ("auth-not-shared", "auth-stored")),
+        _e("c11_hdr_auth_nocache", "request with Authorization; reply 'Cache-Control: no-cache' " + f("b b", "b b b") + _h, ("auth-not-shared", "auth-no-cache-exception-stored")),
+        _e("c11_hdr_auth_smaxage", "request with Authorization; reply 'Cache-Control: " + f("s-maxage' b b", "' b '-maxage' b b") + _h, ("auth-not-shared", "auth-stored")),
+    ]
 SPEC = dict(
     harness="C11_nostore.cc", units=_U, unit_flags={"compat/xstring.cc": ["-Dxstrdup=vf_unused_squid_xstrdup"]},
     native_units=["src/sbuf/Algorithms.cc"],
-    scope="kernel", scope_note="TODO",
-    entries=dict(
-        quick=[_e("c11_decision", "probe", ("reuseNot",), jobs=4),
-               _e("c11_request_veto", "probe", ()),
-               _e("c11_hdr_case", "probe", ()),
-               _e("c11_hdr_sep", "probe", ()),
-               _e("c11_hdr_dup", "probe", ()),
-               _e("c11_hdr_req", "probe", ()),
-               _e("c11_hdr_auth", "probe", ()),
-        ],
-        thorough=[]),
-    timeout=dict(quick=300, thorough=1500),
-    stubs=[], outside="",
+    scope="kernel",
+    scope_note="kernel decided: (K1) HttpStateData::reusableReply() -- the only place where http.cc decides whether a reply may get a public cache key -- answers "
+               "reuseNot (or doNotCacheButShare for an entry that was already released and can no longer be made public), never cachePositively/cacheNegatively, "
+               "whenever the reply's Cache-Control has no-store or private, the request's Cache-Control has no-store, or the request carried credentials "
+               "(flags.auth) and the reply's Cache-Control has none of public, must-revalidate, s-maxage -- except, in this USE_HTTP_VIOLATIONS build, a reply "
+               "'no-cache' without field list to a request with credentials; for every combination of the other inputs the decision reads. "
+               "(K2) HttpStateData::haveParsedReplyHeaders() on a real HttpReply whose Cache-Control field lines are text with symbolic bytes (parsed by the real "
+               "HttpReply::hdrCacheInit()/HttpHeader::getCc()/HttpHdrCc::parse(); same for the request) calls StoreEntry::makePrivate() and neither makePublic() nor "
+               "cacheNegatively() in those cases, and in the no-cache exception stores only with ENTRY_REVALIDATE_ALWAYS set. (K3) HttpRequest::maybeCacheable() vetoes "
+               "caching for every http/https request with Cache-Control: no-store. "
+               "gap: that an entry which never got a public key (StoreEntry::makePrivate()/releaseRequest(), store.cc) is never found by a later lookup "
+               "(storeGetPublicByRequest, Store::Controller, shared memory/disk indexes, collapsed forwarding's sharing of doNotCacheButShare entries); that every reply "
+               "passes through haveParsedReplyHeaders() before any client can hit it (FwdState/StoreEntry life cycle; FTP/Gopher/WHOIS gateways and adapted (ICAP/eCAP) "
+               "replies have their own paths); clientInterpretRequestHeaders() itself (it sets flags.auth from the Authorization header/URL userinfo and flags.cachable "
+               "from maybeCacheable(): modelled by two lines of the harness); how ENTRY_REVALIDATE_ALWAYS is honoured on a hit (C12's kernel); Surrogate-Control handling",
+    # quick: both kernels on objects + four of the twelve text families; thorough: all twelve, one more symbolic byte each
+    entries=dict(quick=_Q + [e for e in _fam("quick") if e["name"] in ("c11_hdr_case", "c11_hdr_dup", "c11_hdr_req", "c11_hdr_auth_nocache")],
+                 thorough=_Q + _fam("thorough")),
+    timeout=dict(quick=400, thorough=1500),
+    stubs=["HttpStateData, HttpRequest, StoreEntry, MemObject are zeroed raw memory of the real size (not constructed); set directly: HttpStateData::entry/request/"
+           "theFinalReply/ignoreCacheControl/surrogateNoStore/sawDateGoBack, HttpRequest::method/header/cache_control/flags/url.scheme_, StoreEntry::mem_obj/flags/"
+           "timestamp/expires/lastModified_, MemObject::storeId_/method/reply_; RefCount members written as raw pointers without locking",
+           "K1: HttpReply is zeroed raw memory with header/sline/cache_control/date/expires/content_length set directly, HttpHdrCc objects with mask and values set directly; "
+           "K2: HttpReply is really constructed and filled by HttpHeader::addEntry() + HttpReply::hdrCacheInit()",
+           "store.cc is not linked: StoreEntry::makePublic()/cacheNegatively()/makePrivate() are recorders, timestampsSet() a no-op (entry times are set by the harness), "
+           "lock()/unlock() no-ops, storeGetPublic()/storeGetPublicByRequest() return 'nothing cached yet'",
+           "flags.auth = request header has Authorization (what clientInterpretRequestHeaders() does); neighbors_do_private_keys = 0 (no peers)",
+           "bitcode build only: constant CaseInsensitiveSBufHash and std::__detail::_Prime_rehash_policy members as in C29 (LookupTable of directive names); the native replay build uses the real ones",
+           "StatHist::enumInit/count no-ops; SquidConfig Config is the real global, zero-initialised, with minimum_expiry_time, maxStale, negativeTtl set by the harness", "debugs() disabled"],
+    assumptions=["'forbidden to be stored' rows and the USE_HTTP_VIOLATIONS no-cache exception exactly as listed in the header comment of harness/C11_nostore.cc; "
+                 "'request with Authorization credentials' = RequestFlags::auth; rows about Cache-Control are claimed while Squid honours Cache-Control (ignoreCacheControl, "
+                 "set only by Surrogate-Control processing in accelerator mode, and http_port ignore-cc are off: neither is a default setting)",
+                 "KNOWN-FINDING candidate excluded from K2 by vf_assume: VT/FF bytes at the symbolic positions of a Cache-Control value (a list item made only of VT/FF ends "
+                 "strListGetItem()'s iteration -- the C29 list-splitter candidate -- so 'Cache-Control: public, <VT>, no-store' is stored)"],
+    outside="Cache-Control texts other than the listed families (HttpHdrCc::parse itself is C29); refresh_pattern lines incl. ignore-no-store/ignore-private/store-stale; "
+            "Vary; everything listed under gap",
 )
